@@ -241,7 +241,17 @@ pub fn guid_from(b: [u8; 16]) -> GUID {
 }
 
 impl ReaderBench {
+  /// Reader whose whole QoS is given by the caller (C10/C11).
+  pub fn new_with_qos(flavor: Flavor, qos: QosPolicies, reader_key: [u8; 3]) -> ReaderBench {
+    let reliable = matches!(qos.reliability(), Some(policy::Reliability::Reliable { .. }));
+    Self::build(RbCfg { flavor, reliable, history: -1, max_samples: 0, reader_key }, Some(qos))
+  }
+
   pub fn new(cfg: RbCfg) -> ReaderBench {
+    Self::build(cfg, None)
+  }
+
+  fn build(cfg: RbCfg, qos_override: Option<QosPolicies>) -> ReaderBench {
     let e = env();
     let keyed = matches!(cfg.flavor, Flavor::Keyed | Flavor::Simple);
     let topic = TOPICS.with(|t| if keyed { t.0.clone() } else { t.1.clone() });
@@ -264,7 +274,7 @@ impl ReaderBench {
         max_samples_per_instance: cfg.max_samples,
       });
     }
-    let qos = qb.build();
+    let qos = qos_override.unwrap_or_else(|| qb.build());
 
     // fresh topic cache per bench (same construction as DDSCache::add_new_topic)
     let mut ddsc = DDSCache::new();
@@ -401,6 +411,16 @@ impl ReaderBench {
     let q = qb.build();
     let eid = self.reader_eid;
     self.mr.reader_mut(eid).unwrap().update_writer_proxy(proxy, &q);
+  }
+
+  /// Match attempt with a full offered QoS; returns whether the writer is matched afterwards.
+  pub fn match_writer_qos(&mut self, guid: [u8; 16], offered: &QosPolicies, reply_to: SocketAddr) -> bool {
+    let g = GUID::from_bytes(guid);
+    let proxy = RtpsWriterProxy::new(g, vec![Locator::from(reply_to)], vec![], EntityId::UNKNOWN);
+    let eid = self.reader_eid;
+    let r = self.mr.reader_mut(eid).unwrap();
+    r.update_writer_proxy(proxy, offered);
+    r.contains_writer(g.entity_id)
   }
 
   pub fn unmatch_writer(&mut self, guid: [u8; 16]) {
